@@ -129,3 +129,20 @@ class QuotientSwapper(CachedIdentityMapper):
 
     def get_cache_key(self, expr):
         return (type(expr), expr)
+
+
+class PlainVarCollector(Collector):
+    """A collector of variable names without extra arguments (so that drop_args / drop_kwargs are legitimate)."""
+
+    def map_variable(self, expr):
+        self.calls = getattr(self, "calls", 0) + 1
+        return {expr.name}
+
+
+class CachedPlainVarCollector(CachedMapper, Collector):
+    def map_variable(self, expr):
+        self.calls = getattr(self, "calls", 0) + 1
+        return {expr.name}
+
+    def get_cache_key(self, expr):
+        return (type(expr), expr)
